@@ -217,3 +217,17 @@ Proof.
   - intros [[[p i] brs] [E Hin]]. exists p, i, brs. auto.
   - intros (p & i & brs & Hin & E). exists ((p, i), brs). auto.
 Qed.
+
+(** a document's name, branch list and content: the blob seen through Builder.Add's skip rules; a LargeFiles match
+    lifts the size limit *)
+Theorem doc_gogit_content : forall size_max large_ok blobs path id brs c,
+  lookup_blob id blobs = Some c ->
+  let d := doc_gogit size_max large_ok blobs ((path, id), brs) in
+  gd_name d = path /\ gd_branches d = brs /\
+  gd_content d = builder_view (if large_ok path then length c else size_max) c.
+Proof.
+  intros size_max large_ok blobs path id brs c Hc. unfold doc_gogit. rewrite Hc. cbn [gd_name gd_branches gd_content].
+  split; [reflexivity|]. split; [reflexivity|]. unfold add_view.
+  destruct (large_ok path); cbn [negb]; [rewrite andb_false_r; reflexivity|]. rewrite andb_true_r.
+  destruct (size_max <? length c) eqn:E; [|reflexivity]. unfold builder_view. rewrite E. reflexivity.
+Qed.
